@@ -205,8 +205,13 @@ def build_base(h, sc, base):
         os.symlink(real, os.path.join(base, "lnk.cgns"))
     if sc.stale:
         open(os.path.join(base, sc.tmp), "wb").write(b"stale junk left by an earlier crash " * 50)
+    pre = None
     if sc.driver == "close":
-        # reference = the file as the modify session leaves it without compaction (control run on a copy)
+        # reference = the file as the modify session leaves it without compaction (control run on a copy);
+        # while the session's own changes are still being flushed (before the first call on the temporary) the
+        # content before the session is accepted as well: those kill points precede compaction proper
+        stp, _ = dump_paths(h, [sc.given], base)
+        pre = stp[0][2] if stp[0][0].startswith("ok") else None
         ctl = base + "_ctl"
         copy_base(sc, base, ctl)
         lines, oc = vlib.run_impl(h, "", args=["closecompress", sc.given, "0"], cwd=ctl)
@@ -218,7 +223,7 @@ def build_base(h, sc, base):
         st, _ = dump_paths(h, [sc.given], base)
     if not st[0][0].startswith("ok"):
         raise vlib.Infra("reference dump of %s failed: %s" % (sc.name, st[0][0]))
-    return st[0][2]
+    return st[0][2], pre
 
 
 def copy_base(sc, base, dst):
@@ -277,6 +282,8 @@ def normalise_for_compare(toks, model, sc):
        - opening the source (cgio_check_file: open/read/close before the real open) happens before compaction
          starts when the harness arms the interposer, but inside the run for the cgnscompress tool: leading
          close:F tokens of the tool are dropped;
+       - lstat/readlink calls change nothing and libhdf5 adds its own: stat tokens are dropped (their presence in
+         rewrite_file is checked on the table by the translator);
        - writes to the source during flush/close of a modify-mode source (HDF5 metadata flush, ADF pending block)
          are content preserving by assumption (DESIGN C15) and reported separately."""
     def merge(ts):
@@ -286,12 +293,12 @@ def normalise_for_compare(toks, model, sc):
                 continue
             out.append(t)
         return out
-    t2 = [t for t in toks if t not in ("writes:F", "sync:F")]
+    t2 = [t for t in toks if t not in ("writes:F", "sync:F") and not t.startswith("stat:")]
     src_writes = "writes:F" in toks
     if sc.driver == "tool":
         while t2 and t2[0] == "close:F":
             t2.pop(0)
-    m2 = [t for t in model if t != "sync:F"]
+    m2 = [t for t in model if t != "sync:F" and not t.startswith("stat:")]
     return merge(t2), merge(m2), src_writes
 
 
@@ -332,6 +339,65 @@ def model_states_per_call(sc, tr, states, model_toks_per_stmt):
     return out
 
 
+def _rot(x, k):
+    return ((x << k) | (x >> (32 - k))) & 0xffffffff
+
+
+def lookup3(data, initval=0):
+    """Bob Jenkins' hashlittle (lookup3), as used by HDF5 for metadata checksums"""
+    M = 0xffffffff
+    n = len(data)
+    a = b = c = (0xdeadbeef + n + initval) & M
+    i = 0
+    while n > 12:
+        a = (a + int.from_bytes(data[i:i + 4], "little")) & M
+        b = (b + int.from_bytes(data[i + 4:i + 8], "little")) & M
+        c = (c + int.from_bytes(data[i + 8:i + 12], "little")) & M
+        a = (a - c) & M; a ^= _rot(c, 4); c = (c + b) & M
+        b = (b - a) & M; b ^= _rot(a, 6); a = (a + c) & M
+        c = (c - b) & M; c ^= _rot(b, 8); b = (b + a) & M
+        a = (a - c) & M; a ^= _rot(c, 16); c = (c + b) & M
+        b = (b - a) & M; b ^= _rot(a, 19); a = (a + c) & M
+        c = (c - b) & M; c ^= _rot(b, 4); b = (b + a) & M
+        i += 12; n -= 12
+    if n == 0:
+        return c
+    tail = data[i:] + b"\0" * (12 - n)
+    a = (a + int.from_bytes(tail[0:4], "little")) & M
+    b = (b + int.from_bytes(tail[4:8], "little")) & M
+    c = (c + int.from_bytes(tail[8:12], "little")) & M
+    c ^= b; c = (c - _rot(b, 14)) & M
+    a ^= c; a = (a - _rot(c, 11)) & M
+    b ^= a; b = (b - _rot(a, 25)) & M
+    c ^= b; c = (c - _rot(b, 16)) & M
+    a ^= c; a = (a - _rot(c, 4)) & M
+    b ^= a; b = (b - _rot(a, 14)) & M
+    c ^= b; c = (c - _rot(b, 24)) & M
+    return c
+
+
+def h5clear_status(path):
+    """what `h5clear -s` does to a version-2/3 superblock: clear the file-consistency flags left by a writer that
+    died, recompute the superblock checksum.  Returns True when the flags were set and have been cleared."""
+    try:
+        with open(path, "r+b") as f:
+            sb = bytearray(f.read(48))
+            if len(sb) < 48 or sb[:8] != b"\x89HDF\r\n\x1a\n" or sb[8] not in (2, 3) or sb[9] != 8 or sb[11] == 0:
+                return False
+            sb[11] = 0
+            sb[44:48] = lookup3(bytes(sb[:44])).to_bytes(4, "little")
+            f.seek(0); f.write(sb)
+        return True
+    except OSError:
+        return False
+
+
+def between(post, obs, pre):
+    """flush phase of a modify session that only deleted nodes: every node of the final content is there, nothing
+    that was not in the content before the session is there (each deletion is atomic, their flush is not)"""
+    return set(post) <= set(obs) <= set(pre)
+
+
 def judge(sc, ref, stF, stT):
     """the property at one crash point: at least one of the two paths is complete and logically equal"""
     okF = stF[0].startswith("ok") and stF[2] == ref
@@ -339,29 +405,38 @@ def judge(sc, ref, stF, stT):
     return okF, okT
 
 
-def kill_case(h, ipso, tools, sc, base, work, k, ref):
+def kill_case(h, ipso, tools, sc, base, work, k, ref, pre=None):
     d = os.path.join(work, "k%d" % k)
     copy_base(sc, base, d)
     argv, armed = sc.argv(h, tools, d)
     lines, oc, err = run_ip(ipso, argv, d, cwd=d, kill=k, armed=armed)
     (stF, stT), ocs = dump_paths(h, [sc.given, sc.tmp], d)
     okF, okT = judge(sc, ref, stF, stT)
+    if pre is not None and not okF:
+        okF = stF[0].startswith("ok") and between(ref, stF[2], pre)
     link_ok = True
     if sc.reach != "direct":
         l = os.path.join(d, "lnk.cgns")
         link_ok = os.path.islink(l) and os.readlink(l) in ("real.cgns", os.path.join(d, "real.cgns"))
+    recovered = None
+    if not (okF or okT) and sc.fmt == "hdf5" and sc.modify() and os.path.exists(os.path.join(d, "real.cgns")):
+        # is the original merely flagged "open for writing" by the killed modify session (h5clear -s repairs that)?
+        if h5clear_status(os.path.join(d, "real.cgns")):
+            (st2,), _ = dump_paths(h, [sc.given], d)
+            recovered = st2[0].startswith("ok") and (st2[2] == ref or (pre is not None and between(ref, st2[2], pre)))
     obs = {"k": k, "outcome": oc, "orig": stF[0], "tmp": stT[0], "orig_equal": okF, "tmp_equal": okT, "link_ok": link_ok,
+           "orig_equal_after_h5clear": recovered,
            "orig_exists": os.path.lexists(os.path.join(d, "real.cgns")), "tmp_exists": os.path.lexists(os.path.join(d, sc.tmp)),
            "stderr": err[-300:] if oc not in ("killed", "ok") else ""}
     shutil.rmtree(d, ignore_errors=True)
     return obs
 
 
-def run_scenario(ck, h, ipso, tools, sc, model, pool, stats, corr_broken):
+def run_scenario(ck, h, ipso, tools, sc, model, pool, stats, corr_broken, prior_fails=()):
     """returns list of property failures (dicts)"""
     work = os.path.join(ck.work, sc.name)
     base = os.path.join(work, "base")
-    ref = build_base(h, sc, base)
+    ref, pre = build_base(h, sc, base)
     # ---- uninterrupted, traced
     d0 = os.path.join(work, "full")
     copy_base(sc, base, d0)
@@ -403,7 +478,8 @@ def run_scenario(ck, h, ipso, tools, sc, model, pool, stats, corr_broken):
                             "impl": a, "model": b})
     per_call = model_states_per_call(sc, tr, model["states"][sc.variant()], model["toks_per_stmt"][(sc.variant(), "m" if sc.modify() else "r")])
     # ---- the kill campaign
-    futs = [pool.submit(kill_case, h, ipso, tools, sc, base, work, k, ref) for k in range(nmut)]
+    first_tmp = min([c["m"] for c in tr if c["m"] is not None and sc.tmp in c["path"]] or [0])
+    futs = [pool.submit(kill_case, h, ipso, tools, sc, base, work, k, ref, pre if k < first_tmp else None) for k in range(nmut)]
     windows = {"orig_absent_tmp_complete": 0, "both_complete": 0, "only_orig": 0}
     for fu in futs:
         o = fu.result()
@@ -421,9 +497,34 @@ def run_scenario(ck, h, ipso, tools, sc, model, pool, stats, corr_broken):
             windows["orig_absent_tmp_complete"] += 1
         elif o["orig_equal"]:
             windows["only_orig"] += 1
+        key = None
+        if not good and o["link_ok"] and o.get("orig_equal_after_h5clear"):
+            # genuine, documented in notes/C15.md: HDF5 marks a file opened read-write in its superblock; a process
+            # killed anywhere in a modify session (so also while compress-on-close copies) leaves the mark behind and
+            # the library refuses to reopen the file although every byte of the data is intact
+            key = "hdf5-modify-session-kill-leaves-file-locked"
+            what = ("after the kill the original HDF5 file cannot be opened (superblock still flagged open-for-write by the "
+                    "killed modify session) and the temporary is not complete; the data is intact once the flag is cleared (h5clear -s)")
+        elif (not good and o["link_ok"] and sc.fmt == "hdf5" and sc.modify() and o["k"] < first_tmp and
+              o.get("orig_equal_after_h5clear") is False):
+            # genuine, documented: the kill fell inside H5Fflush of the modify session's own pending changes, BEFORE
+            # rewrite_file touches the temporary: libhdf5 writes its metadata in place, not atomically
+            key = "hdf5-modify-session-kill-during-flush"
+            what = ("the kill fell inside the initial cgio_flush_to_disk (H5Fflush) of a modify-mode HDF5 source, before the "
+                    "temporary exists: the half-flushed original cannot be opened even with its write flag cleared")
+        if key:
+            stats["hdf5_modify_kills"][key] = stats["hdf5_modify_kills"].get(key, 0) + 1
+            call = next((c for c in tr if c["m"] == o["k"]), None)
+            if ck.known_match(key):
+                ck.finding(key, {})
+            elif not any(f.get("finding_key") == key for f in fails + prior_fails):
+                fails.append({"finding_key": key, "scenario": sc.spec(), "kill": o["k"], "flush_phase": o["k"] < first_tmp,
+                              "killed_before_call": call and "%s %s" % (call["name"], call["path"]), "what": what, "observed": o})
+            continue
         if not good:
             call = next((c for c in tr if c["m"] == o["k"]), None)
             fails.append({"scenario": sc.spec(), "kill": o["k"], "killed_before_call": call and "%s %s" % (call["name"], call["path"]),
+                          "flush_phase": o["k"] < first_tmp,
                           "what": "after the kill neither the original path nor the temporary sibling is a complete file equal "
                                   "to the content before compaction" if o["link_ok"] else "the symbolic link was replaced",
                           "observed": o})
@@ -432,7 +533,8 @@ def run_scenario(ck, h, ipso, tools, sc, model, pool, stats, corr_broken):
             stt = per_call[o["k"]].replace("+partial", "")
             f, t = stt.split("/")
             pred_ok = True
-            if f in ("FO", "FN") and not o["orig_equal"]:
+            locked = sc.fmt == "hdf5" and sc.modify()       # known finding: the open-for-write mark hides an intact original
+            if f in ("FO", "FN") and not o["orig_equal"] and not locked:
                 pred_ok = False
             if f == "FG" and o["orig_exists"]:
                 pred_ok = False
@@ -570,7 +672,7 @@ def run(ck):
                       "EVERY mutating system call of the compaction; non-trivial = the kill actually fired (exit 86); distinct by scenario/kill index")
     model = None
     corr_broken, fails = [], []
-    stats = {"traces": 0, "kills": 0, "states_compared": 0, "per_scenario": {}, "source_written_during_flush_or_close": []}
+    stats = {"traces": 0, "kills": 0, "states_compared": 0, "hdf5_modify_kills": {}, "per_scenario": {}, "source_written_during_flush_or_close": []}
     if cres["ok"]:
         vlib.build_modelrun("c15")
         model = get_model()
@@ -594,27 +696,30 @@ def run(ck):
     scens = scenario_list(ck.rng, ck.tier)
     with concurrent.futures.ThreadPoolExecutor(max_workers=WORKERS) as pool:
         for sc in scens:
-            f = run_scenario(ck, h, ipso, tools, sc, model, pool, stats, corr_broken if cres["ok"] else [])
+            f = run_scenario(ck, h, ipso, tools, sc, model, pool, stats, corr_broken if cres["ok"] else [], list(fails))
             fails += f
-            if len(fails) >= 3:
+            if len([x for x in fails if not x.get("finding_key")]) >= 3:
                 break
-        if (broken or corr_broken) and not fails and ck.tier == "quick":
+        if (broken or corr_broken) and not [x for x in fails if not x.get("finding_key")] and ck.tier == "quick":
             # widened search (DESIGN 1.3): the thorough scenario list
             for sc in scenario_list(ck.rng, "thorough"):
-                fails += run_scenario(ck, h, ipso, tools, sc, model, pool, stats, [])
-                if fails:
+                fails += run_scenario(ck, h, ipso, tools, sc, model, pool, stats, [], list(fails))
+                if [x for x in fails if not x.get("finding_key")]:
                     break
-    for f in fails[:3]:
+    for f in [x for x in fails if x.get("finding_key")] + [x for x in fails if not x.get("finding_key")][:3]:
+        if f.get("finding_key"):
+            ck.finding(f["finding_key"], dict(f, oracle="library walk of both paths in a fresh process after exit_group at the kill point"))
+            continue
         ck.violation(dict(f, oracle="library walk of both paths in a fresh process after exit_group at the kill point",
                           replay_hint="./check C15 --replay <this file>"))
-    if (broken or corr_broken) and not fails:
+    if (broken or corr_broken) and not [x for x in fails if not x.get("finding_key")]:
         ck.violation({"broken_obligations": broken, "broken_correspondence": corr_broken[:3],
                       "note": "the order of effectful calls in rewrite_file (or its callers) is no longer the one proved safe / "
                               "the traced runs differ from the model, but every kill point explored still left a complete file"},
                      nofail=True)
     ck.extra["relative_symlink_other_cwd_probe"] = relative_link_probe(h, ipso, ck)
     ck.extra["input_distribution"] = {"scenarios": [s.name for s in scens], "kills": stats["kills"], "traces": stats["traces"],
-                                      "states_compared_with_model": stats["states_compared"], "per_scenario": stats["per_scenario"],
+                                      "states_compared_with_model": stats["states_compared"], "hdf5_modify_kills": stats["hdf5_modify_kills"], "per_scenario": stats["per_scenario"],
                                       "source_written_during_flush_or_close": stats["source_written_during_flush_or_close"]}
 
 
@@ -629,7 +734,7 @@ def replay(ck, path):
     sc = Scen(**r["scenario"])
     work = os.path.join(ck.work, "replay")
     base = os.path.join(work, "base")
-    ref = build_base(h, sc, base)
+    ref, pre = build_base(h, sc, base)
     if r.get("kill") is None:
         d0 = os.path.join(work, "full")
         copy_base(sc, base, d0)
@@ -641,7 +746,7 @@ def replay(ck, path):
         bad = not (oc == "ok" and okF and not temps)
         print("replay: uninterrupted run: outcome=%s orig=%s equal=%s temps=%s -> property %s" % (oc, stF[0], okF, temps, "FAILS" if bad else "holds"))
         return 1 if bad else 0
-    o = kill_case(h, ipso, tools, sc, base, work, r["kill"], ref)
+    o = kill_case(h, ipso, tools, sc, base, work, r["kill"], ref, pre if r.get("flush_phase") else None)
     bad = not ((o["orig_equal"] or o["tmp_equal"]) and o["link_ok"])
     print("replay: kill before mutating call %d: %s -> property %s" % (r["kill"], json.dumps(o), "FAILS" if bad else "holds"))
     return 1 if bad else 0
